@@ -41,7 +41,8 @@ def rand_features(r, n):
         attrs.sort(key=lambda kv: not kv[1])        # a valueless flag first would switch the line to the 'key value' style
         if attrs and not attrs[0][1]:
             attrs = []                              # ... and so would a line whose only attribute is the flag
-        out.append({"seqid": r.choice(["chr1", "chr2"]), "source": r.choice(["s1", "s2"]),
+        # (an EMPTY source column now and then: with ':source:' the key is the empty string, not '.')
+        out.append({"seqid": r.choice(["chr1", "chr2"]), "source": r.choice(["s1", "s2", "s1", "s2", "s1", "s2", "s1", "", "."]),
                     "ftype": r.choice(["gene", "mRNA", "exon"]), "start": r.randrange(1, 1000),
                     "end": r.randrange(1000, 2000), "strand": r.choice("+-"), "attrs": attrs})
     return out
